@@ -163,7 +163,7 @@ theorem absorb_meta_below_end (a : Alloc) (M : List Nat) (hm : ∀ x ∈ a.mta.f
     ∀ x ∈ a.mta.free ++ M, x < a.absorbOverflow.data.endMarker := absorb_meta_below a M hm hg
 
 /-- the same with the growth condition on the state after `absorbOverflow` -/
-theorem absorb_meta_below_end' (a : Alloc) (M : List Nat) (hm : ∀ x ∈ a.mta.free ++ M, x < a.mta.endMarker)
+theorem absorb_meta_below_end_grown (a : Alloc) (M : List Nat) (hm : ∀ x ∈ a.mta.free ++ M, x < a.mta.endMarker)
     (hg : a.absorbOverflow.maxPages = 0 ∨ a.absorbOverflow.data.endMarker < a.absorbOverflow.maxPages) :
     ∀ x ∈ a.mta.free ++ M, x < a.absorbOverflow.data.endMarker := absorb_meta_below a M hm (absorb_growth a hg)
 
